@@ -159,7 +159,6 @@ var c07IndexOK = map[string]string{
 	"compiler.Compiler.reference|index 0 of result of bytecode.ByteCode.Opcodes#2":           "same: written back to the element just read",
 	"compiler.Compiler.compilerMacro|index 0 of field Tokens":   "needs a loaded `macros` package whose function returns text without any token; tokenizer.New(text, true) ends every token list with an end-of-statement token, so the list is not empty",
 	"compiler.Compiler.compilerMacro|index 0 of field Tokens#2": "same token list, one line earlier",
-	"compiler.Compiler.testDirective|index 0 of result of tokenizer.Tokenizer.NextText": "NextText returns \"\" only past the last token; tokenizer.New(src, true) ends the list with an end-of-statement token, so a token always follows the directive name (checked: a file that is exactly `@test` names the test \";\")",
 	// names and tables made by Go code
 	"data.Declaration.typeAsString|index 0 of value":        "the receiver type name of a native declaration; names are Go literals of the form pkg.Type",
 	"data.Format|index 0 of result of strings.TrimPrefix":   "a reflect type string without its leading '*' that was just found as a key of packageTypes: never empty",
@@ -174,8 +173,7 @@ var c07IndexOK = map[string]string{
 	"util.formatSymbols|index 2 of value":   "rows come from SymbolTable.FormattedData, which builds every row with the same fixed columns",
 	"util.formatSymbols|index 2 of value#2": "same row",
 	// not the interpreter
-	"debugger.getLine|index 0 of field Tokens":                          "the interactive debugger's prompt (terminal layer, outside this property): the line typed is tokenised with the end-of-statement token appended",
-	"debugger.getLine|index 0 of result of tokenizer.Token.Spelling":    "same prompt; tokens have non-empty spellings",
+	"debugger.getLine|index 0 of field Tokens":                          "the line was tested for blank just above (strings.TrimSpace), so it tokenises to at least one token",
 	"resolve.walker.popFuncLocals|index 0 of field funcLocals":          "the formatter's resolver, not the interpreter; push and pop are paired by the walker",
 }
 
